@@ -401,7 +401,7 @@ func ruleTaint(c *Ctx) {
 			}
 			return true
 		}
-		g, bad := p.AllFrom(call.Args[0], eng.Plain, func(v ssa.Value) bool { return isConstStatus(v, 0) })
+		g, bad := p.AllFrom(call.Args[0], deepF, func(v ssa.Value) bool { return isConstStatus(v, 0) })
 		c.CheckAt("TAINT", "status-is-constant:"+short(s.Fn), s.Ins, g, "a connection-error status (which becomes a metric label) is not a compile-time constant: "+valsStr(p, bad))
 	}
 	c.Floor("TAINT", "NewConnectionError call sites", n, 15)
